@@ -101,6 +101,9 @@ func (s *store) openWith(opts *bolt.Options) error {
 		if err != nil {
 			return err
 		}
+		// no fsync per transaction: durability under a crash is not part of the property, and 16
+		// shards syncing the same disk make the thorough tier I/O-bound
+		db.NoSync = true
 		s.db = db
 		st = storage.NewBoltDBTokenStorage(db)
 	} else {
